@@ -18,7 +18,8 @@ import pathlib
 import common
 
 BASES = "ACGT"
-RULE = ("random DNA strands built by the real parsers (fasta / ig linear / ig circular / monomer list / json with node keys starting at 0, 1, 4, 7 and resids starting at 0, 1, 5, 11, 101, rings with and without a labelled closing edge; compared on the true keys and resids), "
+RULE = ("EXHAUSTIVE (quick tier, tallied `exhaustive=`): every residue name of BASE_LIBRARY at every position class (single / first / middle / last, linear and ring), all 144 ordered pairs (2-strand, ends of a 3-strand, ends of a 3-ring), 11 names outside the library at every position class (refused), each completed twice (stage 2); then "
+        "random DNA strands built by the real parsers (fasta / ig linear / ig circular / monomer list / json with node keys starting at 0, 1, 4, 7 and resids starting at 0, 1, 5, 11, 101, rings with and without a labelled closing edge; compared on the true keys and resids), "
         "length 1..12 quick, up to 200 thorough, random edge attribute dicts (shared keys, values of every scalar type incl. falsy ones, compared typed); the strand ADDED by each completion is completed again as it stands (stage 2); plus a malformed stream with "
         "one unknown residue name; a case is non-trivial when n >= 2; distinct = (kind, sequence, labels); "
         "plus an end-to-end stream: real gen_params(lib=parmbsc1, dsdna=True/False) with the strand given by "
@@ -62,6 +63,20 @@ def build_strand(kind, letters, tmpdir):
     from polyply.src.meta_molecule import MetaMolecule, Monomer
     import vermouth.forcefield
     ff = vermouth.forcefield.ForceField(name="verif")
+    if kind.startswith("names"):
+        # exhaustive stream: residue NAMES (comma separated in `letters`) at arbitrary positions, so the graph is
+        # built directly (the one-letter parsers can only put 5'/3' names at the ends): nodes 0..n-1, resid i+1,
+        # edges (i, i+1) in order, then for "names-circular" the closing edge (0, n-1) labelled like parse_ig does
+        import networkx as nx
+        names = letters.split(",") if letters != "<single-empty>" else [""]
+        graph = nx.Graph()
+        for i, name in enumerate(names):
+            graph.add_node(i, resname=name, resid=i + 1)
+        for i in range(len(names) - 1):
+            graph.add_edge(i, i + 1)
+        if kind == "names-circular":
+            graph.add_edge(0, len(names) - 1, linktype="circle")
+        return MetaMolecule(graph, force_field=ff, mol_name="dna")
     if kind == "monomers":
         names = ["D" + c for c in letters]
         if len(names) >= 2:
@@ -156,9 +171,13 @@ def one_case(ctx, kind, letters, label_seed, unknown_at=None):
     """Builds the strand with the real parser; see `meta_case`."""
     import random
     rng = random.Random(label_seed)
-    with tempfile.TemporaryDirectory() as tmpdir:
-        meta = build_strand(kind, letters, tmpdir)
-    random_labels(rng, meta)
+    if kind.startswith("names") or kind == "monomers":
+        meta = build_strand(kind, letters, None)       # built in memory, no file
+    else:
+        with tempfile.TemporaryDirectory() as tmpdir:
+            meta = build_strand(kind, letters, tmpdir)
+    if not kind.startswith("names"):
+        random_labels(rng, meta)
     if unknown_at is not None:
         key = list(meta.nodes)[unknown_at]
         meta.nodes[key]["resname"] = "XY" + meta.nodes[key]["resname"]
@@ -252,6 +271,47 @@ def judge(ctx, case, answers, second=None):
                               result=impl if n <= 4 else "(%d residues)" % (2 * n)),
              kind=replay["kind"] if stage == 1 else "second-strand", n=("1" if n == 1 else "2" if n == 2 else "3-12" if n <= 12 else ">12"),
              valid=spec["ok"])
+
+
+NON_LIBRARY = ["DU", "A", "DA53", "da", "<single-empty>", "DA ", "DT35", "DA5'", "T", "dT", "DN"]
+
+
+def gen_exhaustive_cases(ctx):
+    """every residue name of BASE_LIBRARY (as the live module has it) at every position class (single / first /
+    middle / last of a linear strand, first / middle / last of a ring), all ordered pairs (as a 2-strand, and as
+    the two ends of a 3-strand / 3-ring), and names outside the library at every position class (must be refused);
+    deterministic (label seed 0)"""
+    from polyply.src.gen_dna import BASE_LIBRARY
+    lib = list(BASE_LIBRARY)
+    fill = "DG" if "DG" in BASE_LIBRARY else lib[0]
+    cases = []
+
+    def put(kind, names, tag):
+        letters = ",".join(names) if names != [""] else "<single-empty>"
+        cases.append((kind, letters, 0, None, tag))
+    for name in lib:
+        put("names-linear", [name], "name-x-position")
+        for pos in range(3):
+            names = [fill] * 3
+            names[pos] = name
+            put("names-linear", names, "name-x-position")
+            put("names-circular", names, "name-x-position")
+    for a in lib:
+        for b in lib:
+            put("names-linear", [a, b], "ordered-pairs")
+            put("names-linear", [a, fill, b], "ordered-pairs")
+            put("names-circular", [a, fill, b], "ordered-pairs")
+    for bad in NON_LIBRARY:
+        name = "" if bad == "<single-empty>" else bad
+        put("names-linear", [name], "non-library-name")
+        for pos in range(3):
+            names = [fill] * 3
+            names[pos] = name
+            if "," in name:
+                continue
+            put("names-linear", names, "non-library-name")
+            put("names-circular", names, "non-library-name")
+    return cases
 
 
 def gen_cases(ctx):
@@ -447,9 +507,13 @@ def ask_and_judge(ctx, cases):
 
 def run_cases(ctx, specs):
     cases = []
-    for kind, letters, label_seed, unknown in specs:
+    for spec in specs:
+        kind, letters, label_seed, unknown = spec[:4]
         try:
             cases.append(one_case(ctx, kind, letters, label_seed, unknown))
+            if len(spec) > 4:
+                cases[-1]["exhaustive"] = spec[4]
+                ctx.tally(exhaustive=spec[4])
         except Exception as err:  # pylint: disable=broad-except
             # the real parser refused / crashed on a valid sequence: not C19's business unless it is the
             # completion itself; record and continue
@@ -475,12 +539,14 @@ def run_cases(ctx, specs):
 
 def run(ctx):
     ctx.extra["rule"] = RULE
-    ctx.extra["trusted"] = ["networkx Graph adjacency order (modelled as edge insertion order)"]
+    ctx.extra["trusted"] = ["networkx Graph adjacency order (modelled as edge insertion order)",
+                            "translator harness/tables/dna.py (resid step and node attributes of gen_dna.py; theorems "
+                            "C19_anchor_iterator, C19_table_closed depend on Generated/DnaTables.lean / Tables.lean)"]
     ctx.assumptions.append("circular strands have n >= 3 (a 2-ring is the same edge twice)")
     ctx.extra["trusted"].append("gen_params after the residue graph is built (MapToMolecule, links, itp "
                                 "writer) keeps residue order, resids and resnames: observed through the written "
                                 ".itp, modelled only up to the input of MapToMolecule")
-    run_cases(ctx, corpus_cases() + gen_cases(ctx))
+    run_cases(ctx, corpus_cases() + gen_cases(ctx) + gen_exhaustive_cases(ctx))
     run_e2e(ctx, corpus_e2e_cases() + gen_e2e_cases(ctx))
 
 
